@@ -1,4 +1,5 @@
-"""C21 Generated identifiers are valid and unique (pure-function part: identifiers.pick_*).
+"""C21 Generated identifiers are valid and unique (pure-function part: identifiers.pick_*; engine part
+below: the avoid sets that useractions builds around them).
 
 Enumerates every requested name of a bounded space (all short strings over an alphabet that mixes
 letters, case, underscore, digit, blank, punctuation and non-ASCII characters; every Python keyword
@@ -259,13 +260,51 @@ def run(tier, report):
   E.finish(exhaustive=True, single_requests=len(reqs), list_pool=len(pool))
   report.assumptions.append("existing names (avoid sets) are ASCII, as every id this module produces "
                             "is; case-insensitive comparison is then exact")
+  engine_part(tier, report)
   report.assumptions.append("'already valid' is read with the documented ASCII-only sanitizer: an "
                             "ASCII identifier, not a keyword, not starting with '_' or a digit "
                             "(uppercase first letter for tables); in a list, 'unused' means not in "
                             "the avoid set and not chosen earlier in the same list")
 
 
+def _engine_prop():
+  # "differs ... from every existing name and every other id chosen in the same batch" is the
+  # business of the avoid sets built in useractions (doAddTable, _pick_col_name, the summary-table
+  # renames of _updateTableRecords): W_names asks for adversarial table / column names, alone and
+  # twice in one bundle, on a document whose summary tables' encoded names coincide.
+  from mc.histprop import HistProp
+  from mc import worlds as W
+  from mc.monitors2 import Idents
+  names = ['W_names']
+  depth = W.depths_for(names, quick=2, thorough=2)
+  return HistProp('C21', lambda t: W.make(names), lambda w, t: [Idents()], depth,
+                  origins={'quick': ('L',), 'thorough': ('L', 'I')}, rule='')
+
+
+def engine_part(tier, report):
+  from mc import explore
+  P = _engine_prop()
+  total = explore.run(P.worlds(tier), lambda w: P.monitors(w, tier), P.depth[tier],
+                      origins=P.origins[tier], split_levels=1, budget_s=900)
+  report.coverage['engine_histories'] = total.histories
+  report.coverage['engine_states'] = len(total.states)
+  report.coverage['engine_bundles_rejected'] = total.failed
+  report.coverage['engine_rule'] = (
+      'history explorer over W_names to depth %d (origins %s): every table / column name of an '
+      'adversarial menu requested through AddTable, RenameTable, AddColumn, RenameColumn, metadata '
+      'bulk renames and two-requests-in-one-bundle, on a document with summary tables whose encoded '
+      'names coincide; after every bundle all table ids and column ids are valid identifiers of '
+      'their kind and unique ignoring case, and no naming request is rejected'
+      % (P.depth[tier]['W_names'], '/'.join(P.origins[tier])))
+  report.merge_violations([v for k, v in total.violations.items()
+                           if k.startswith('C21/') or '/monitor-exception/' in k])
+  if total.errors:
+    report.add_violation('C21/harness-error', "explorer unit failed: %s" % total.errors[0][:1200])
+
+
 def replay(viol):
+  if 'history' in viol:
+    return _engine_prop().replay(viol)
   c = viol['case']
   if c['kind'] == 'list':
     try:
